@@ -28,7 +28,11 @@ def run(name):
         r = subprocess.run([os.path.join(ROOT, "check"), prop, "--tier", "quick"], capture_output=True, text=True, env=env, cwd=ROOT)
         lines = [l for l in r.stdout.splitlines() if l.startswith(("VIOLATION", "UNDECIDED", "CHECKER-ERROR", "KNOWN-FINDING"))]
         viol = [l for l in lines if l.startswith("VIOLATION")]
-        obl = sorted({os.path.basename(l.split("replay=")[1].split(".json")[0]) for l in viol})
+        try:
+            evj = json.load(open(os.path.join(w, "out", "evidence", prop + ".json")))
+            obl = sorted({v["obligation"] for v in evj["coverage"].get("violation_details", [])})
+        except Exception:
+            obl = sorted({os.path.basename(l.split("replay=")[1].split(".json")[0]) for l in viol})
         confirmed = sum(1 for l in viol if not l.rstrip().endswith("no-failing-input-found"))
         head = subprocess.run("git -C /repo rev-parse --short HEAD", shell=True, capture_output=True, text=True).stdout.strip()
         return name, {"property": prop, "repo_head": head, "check_exit": r.returncode, "detected": r.returncode == 1,
